@@ -332,7 +332,8 @@ func c05(p *core.Program, r *core.Report) {
 
 	// ---- EMPTY members / offsets in the encoder
 	only := func(o *types.Func) bool {
-		return o.Pkg().Path() == mod+"/"+wktRel && strings.HasPrefix(o.Name(), "writeFlatCoords")
+		sig, _ := o.Type().(*types.Signature)
+		return o.Pkg().Path() == mod+"/"+wktRel && sig != nil && sig.Recv() != nil && strings.Contains(sig.Recv().Type().String(), "Encoder")
 	}
 	lastElemRule(p, r, "last-elem-guarded", 1, only)
 	chainRule(p, r, "offset-chain", 3, only)
